@@ -40,7 +40,7 @@ BOUNDS = {
     "quick": "Hellinger lemma: <=3 bins, counts unbounded symbolic integers; alignment: reference 4 rows + test 2-3 rows of symbolic "
              "cells, 1-2 features; decision logic: detect_batch in {1,2,3} x {stdev (symbolic significance), tstat (real t.ppf, "
              "significance 0.05)} x HDDDM (2 features) / CDBD, N<=4 (5 for detect_batch 3) batches",
-    "thorough": "Hellinger 4 bins; decision logic N<=6 (7)",
+    "thorough": "Hellinger 4 bins (formula, symmetry, proportional; the sqrt(2) bound stays at <=3 bins); decision logic N<=6 (7)",
 }
 OUTSIDE = ("the Jensen-Shannon distance's own axioms and its bound sqrt(ln 2) (scipy, compiled: recorded arguments only); quality "
            "of the bootstrap estimate (an input of the specification); symmetry of the *whole* pipeline follows from the alignment "
@@ -306,6 +306,8 @@ def jobs(tier):
     out = []
     for bins in (1, 2, 3) if q else (1, 2, 3, 4):
         for mode in ("formula", "symmetric", "bound", "proportional"):
+            if bins == 4 and mode == "bound":
+                continue  # the sqrt(2) bound with 4 bins is "unknown" for z3 within 60 s: claimed for <=3 bins only
             out.append(Job(f"hellinger-b{bins}-{mode}", "checks.c07:body_hellinger", {"bins": bins, "mode": mode}, expect=("lemma",),
                            opts={"validate": 1, "query_timeout_ms": 60000}))
     for features in (1, 2):
